@@ -8,6 +8,7 @@ import Dashu.Proofs.Conv.Base
 import Dashu.Proofs.Conv.Kind
 import Dashu.Proofs.Conv.ModeFlag
 import Dashu.Proofs.Conv.ToFloat
+import Dashu.Proofs.Conv.ToFloatHalf
 /-
   C06 — Conversions are lossless or refused; lossy ones are correctly rounded and say so.
 
@@ -907,5 +908,30 @@ theorem rbig_to_float_correct_when_quotient_exact (B : Nat) (hB : 2 ≤ B) (m : 
 example : (toFloatQuot 10 1000 8 2).2.2 = 0 ∧
     ratToFloat 10 .halfEven coarseNone 1000 8 2 = .ok (⟨12, 1⟩, some .NoOp) ∧
     (toFloatQuot 2 (-40) 8 3).2.2 = 0 := by decide +kernel
+
+/-- **HalfEven / HalfAway in an EVEN base (2, 10, 16, …): correctly rounded unless the SECOND rounding is an exact tie.**
+    For every rational, precision and sound coarse test: if the digits `convert_int` drops from the first-rounded quotient
+    (after `Repr::new` stripped its zeros) are not exactly half a unit of the last kept digit, the two nearest roundings
+    compose to one and the result meets the rounding contract of C03 for the exact `num / den`.  (With the theorems above
+    the inputs on which the nearest modes can be wrong are confined to: non-zero remainder ∧ scaled quotient ≥ B^p ∧
+    (the second rounding is an exact tie ∨ the base is odd) — the counterexamples of
+    `rbig_to_float_half_modes_counterexample` are exact ties: 1250 → 13e2, 15 → 2.) -/
+theorem rbig_to_float_nearest_correct_unless_second_tie (B : Nat) (hB : 2 ≤ B) (hBe : B % 2 = 0) (m : Float.Mode)
+    (hm : Nearest m) (c : Coarse) (hc : CoarseSound c) (num : Int) (den p : Nat) (hn : num ≠ 0) (hd : 0 < den)
+    (hp : 1 ≤ p) (hov : p + ilogB B (den : Int) < 2 ^ 64)
+    (hnotie : ∀ k : Nat, k = (FRepr.new B (toFloatN1 B m num den p) 0).digits B - p →
+        2 * |(splitDigits B (FRepr.new B (toFloatN1 B m num den p) 0).signif k).2| ≠ ((B ^ k : Nat) : Int)) :
+    ∃ r, ratToFloat B m c num den p = .ok r ∧ Contract B m p ((num : ℚ) / (den : ℚ)) (r.1.toRat B) r.2 :=
+  ratToFloat_contract_nearest_no_tie B hB hBe m hm c hc num den p hn hd hp hov hnotie
+
+example : Nearest .halfEven ∧ Nearest .halfAway := ⟨trivial, trivial⟩
+-- non-vacuity: 6247/5 = 1249.4 at 2 digits (HalfAway): first rounding 1249, dropped digits 49 ≠ 50, result 12e2; whereas the
+-- recorded counterexample 6248/5 drops exactly 50 (the hypothesis fails there, as it must)
+example : (2 * |(splitDigits 10 (FRepr.new 10 (toFloatN1 10 .halfAway 6247 5 2) 0).signif
+      ((FRepr.new 10 (toFloatN1 10 .halfAway 6247 5 2) 0).digits 10 - 2)).2| ≠ ((10 ^ 2 : Nat) : Int)) ∧
+    (FRepr.new 10 (toFloatN1 10 .halfAway 6247 5 2) 0).digits 10 - 2 = 2 ∧
+    ratToFloat 10 .halfAway coarseNone 6247 5 2 = .ok (⟨12, 2⟩, some .NoOp) ∧
+    2 * |(splitDigits 10 (FRepr.new 10 (toFloatN1 10 .halfAway 6248 5 2) 0).signif 1).2| = ((10 ^ 1 : Nat) : Int) := by
+  decide +kernel
 
 end Dashu.Props.C06
